@@ -151,14 +151,17 @@ example : UInt8.ofNat 256 = 0 := by decide
 example : SameMap [([1], some [([2], [3]), ([4], [])]), ([5], none)]
     [([5], none), ([1], some [([4], []), ([2], [3])])] :=
   .trans (.consSome [1] (List.Perm.swap _ _ _) (SameMap.refl _)) (.swap _ _ _)
+set_option maxRecDepth 8192 in
 /-- A delete with a nil inner map, an empty inner map and two qualifiers, `deleteOneVersion`,
-no timestamp: three cells (10, 8, 8) with timestamp `Long.MAX_VALUE` in both forms. -/
+no timestamp: four cells (10, 10, 8, 8) with timestamp `Long.MAX_VALUE` in both forms — the family
+named with an empty qualifier map is deleted as a family, like the one with a nil map (before the
+repair in /repo it contributed no cell at all, and a delete without cells removes the whole row). -/
 example :
     let mu : Mut := ⟨[1], .delete, maxTimestamp, true⟩
     let m : VMap := [([10], none), ([11], some []), ([12], some [([1], [2]), ([], [])])]
     (valuesToCellblocks mu m m).map (fun r => (Spec.cellsOfCellblocks r.1 r.2.1))
       = .ok (some (Spec.cellsOfProto mu.kind mu.key (valuesToProto mu m (protoTs mu))))
-    ∧ (Spec.intendedCells mu m).map (·.typ) = [10, 8, 8] := by decide
+    ∧ (Spec.intendedCells mu m).map (·.typ) = [10, 10, 8, 8] := by decide
 /-- The defect fixed in 4999c8f, on the model: counting an `emptyQualifier` cell for a *put* with a
 nil inner map would make the two passes disagree; with the current code the put writes no cell. -/
 example : valuesToCellblocks ⟨[1], .put, maxTimestamp, false⟩ [([10], none)] [([10], none)]
